@@ -13,7 +13,7 @@ SV = "quantarhei/qm/propagators/svpropagator.py::"
 P = RP + "ReducedDensityMatrixPropagator."
 
 META = dict(
-    category="proof",
+    category="other",   # proofs, with an open known finding (a clause that is false on this tree)
     text=("The building blocks of the short-time expansion are proved cell by cell (_COM: i dt/l [H, rho]; _TTI: dt/l R rho "
           "added in place) and the propagation loops without and with a tensor-form relaxation generator are proved, with "
           "loop invariants over the time / refinement / expansion-order loops (symbolic sizes, number of times, Nref and "
@@ -170,6 +170,31 @@ def contracts(reg):
                      result=lambda S, env: SE(V.z3int(env["psii"]), V.z3int(env["L"])) if not isinstance(env["L"], int)
                      else SE(V.z3int(env["psii"]), z3.IntVal(env["L"])),
                      notes="abstract result: a deterministic function of the initial state (identity) and the order L"))
+    # the loop structure itself: every refined sub-step starts its expansion from the current state (first term = current
+    # state), and what is stored at time index i is the state after i*Nref sub-steps
+    def sve_hook(ex, cinfo, args, kwargs, line):
+        if cinfo.name == "StateVectorEvolution":
+            ta, psii = args[0], args[1]
+            d = SymArr((ta.fields["length"], psii.fields["data"].shape[0]), "cx", name="svdata")
+            return (Obj("StateVectorEvolution(stub)", {"data": d, "is_in_rwa": False}),)
+        return None
+    reg.models.hooks_instantiate.append(sve_hook)
+
+    def setup_sv_loop(S):
+        n, nt = S.int("N"), S.int("Nt")
+        ham = S.obj("Hamiltonian(stub)", label="ham", has_rwa=False, data=S.array("HH", (n, n), "cx"))
+        ta = S.obj("TimeAxis(stub)", label="timeaxis", length=nt)
+        me = S.obj(SV + "StateVectorPropagator", label="self", ham=ham, timeaxis=ta, Nt=nt, Nref=S.int("Nref"), dt=S.real("dt"))
+        psii = S.obj("StateVector(stub)", label="psii", data=S.array("psi0", (n,), "cx"))
+        return dict(self=me, psii=psii, L=S.int("L"), N=n, Nt=nt)
+    SAME = "forall(a, range(0, N), psi1[a] == psi2[a])"
+    reg.add(Contract(SV + "StateVectorPropagator._propagate_short_exp#loop-structure", setup=setup_sv_loop,
+                     requires=["N >= 0", "Nt >= 1", "self.Nref >= 1", "L >= 1"],
+                     ensures=[("expansion-restarted-from-the-final-state", "forall(a, range(0, N), local_psi1[a] == local_psi2[a])")],
+                     loops={0: dict(inv=[("sub-step-starts-from-the-current-state", SAME)[1]], modifies=["pr.data"]),
+                            1: dict(inv=[SAME]),
+                            2: dict(inv=[], modifies=["psi1", "psi2"])},
+                     expose_locals=["psi1", "psi2"]))
     reg.models.table["SE"] = Builtin("spec:short_exp", lambda ex, a, k, l: SE(V.z3int(a[0]), V.z3int(a[1])))
     reg.add(Contract(SV + "StateVectorPropagator.propagate", setup=setup_sv, requires=[],
                      ensures=[("requested-expansion-order-is-used", "result == SE(psii, L)")]))
@@ -199,8 +224,35 @@ def contracts(reg):
             requires=["N >= 0", "Nt >= 0"],
             ensures=[("every-element-gets-the-phase-of-its-frequency-difference",
                       PHASE.format(hi="Nt", sg=str(sgn), old="old(self.data)")),
-                     ("frame-flag", "self.is_in_rwa == %s" % ("False" if sgn == 1 else str(in_rwa)))],
+                     ("frame-flag", "self.is_in_rwa == %s" % ("False" if sgn == 1 else str(in_rwa)))] + ([
+                     # the propagators use the state they are given as the rotating-frame state at the first time of
+                     # their axis (the frames coincide there): converting must leave the first stored point as it is
+                     ("initial-state-is-the-same-in-both-frames-on-any-axis",
+                      "implies(Nt >= 1, forall((a, b), (range(0, N), range(0, N)), self.data[0,a,b] == old(self.data)[0,a,b]))")]
+                     if tag == "from-the-rotating-frame" else []),
             loops={0: dict(inv=[PHASE.format(hi="_i", sg=str(sgn), old="entry(self.data)"), REST], modifies=["self.data"])}))
+    # state-vector evolutions: every component gets the phase of its own frequency
+    SVE = "quantarhei/qm/propagators/statevectorevolution.py::StateVectorEvolution"
+
+    def setup_rwa_sv(S, in_rwa, sgn):
+        d = setup_rwa(S, in_rwa, sgn)
+        n, nt = d["N"], d["Nt"]
+        d["self"] = S.obj(SVE, label="self", TimeAxis=d["self"].fields["TimeAxis"], data=S.array("psi", (nt, n), "cx"), is_in_rwa=in_rwa)
+        return d
+    PHASE_SV = ("forall((i, a), (range(0, {hi}), range(0, N)), self.data[i,a] == "
+                "exp(-({sg})*1j*HOmega[a]*tdata[i])*{old}[i,a])")
+    REST_SV = "forall((i, a), (range(_i, Nt), range(0, N)), self.data[i,a] == entry(self.data)[i,a])"
+    for in_rwa, sgn, tag in ((True, 1, "from-the-rotating-frame"), (False, -1, "into-the-rotating-frame")):
+        reg.add(Contract(
+            SVE + ".convert_from_RWA#" + tag, setup=(lambda S, r=in_rwa, g=sgn: setup_rwa_sv(S, r, g)),
+            requires=["N >= 0", "Nt >= 0"],
+            ensures=[("every-component-gets-the-phase-of-its-frequency", PHASE_SV.format(hi="Nt", sg=str(sgn), old="old(self.data)")),
+                     ("frame-flag", "self.is_in_rwa == %s" % ("False" if sgn == 1 else str(in_rwa)))] + ([
+                     ("initial-state-is-the-same-in-both-frames-on-any-axis",
+                      "implies(Nt >= 1, forall(a, range(0, N), self.data[0,a] == old(self.data)[0,a]))")]
+                     if tag == "from-the-rotating-frame" else []),
+            loops={0: dict(inv=[PHASE_SV.format(hi="_i", sg=str(sgn), old="entry(self.data)"), REST_SV], modifies=["self.data"])}))
+
     reg.add(Contract(
         DM + ".convert_from_RWA#already-in-the-laboratory-frame", setup=lambda S: setup_rwa(S, False, 1),
         requires=["N >= 0", "Nt >= 0"],
@@ -214,9 +266,11 @@ def plan(ctx):
     contracts(ctx.registry)
     p.functions = [RP + "_COM", RP + "_TTI", P + "__propagate_short_exp", P + "__propagate_short_exp_with_relaxation",
                    P + "__propagate_short_exp_with_relaxation#lorentzian-dephasing",
-                   SV + "StateVectorPropagator.propagate"] + \
+                   SV + "StateVectorPropagator.propagate", SV + "StateVectorPropagator._propagate_short_exp#loop-structure"] + \
                   ["quantarhei/qm/propagators/dmevolution.py::DensityMatrixEvolution.convert_from_RWA#" + t
-                   for t in ("from-the-rotating-frame", "into-the-rotating-frame", "backward-again", "already-in-the-laboratory-frame")]
+                   for t in ("from-the-rotating-frame", "into-the-rotating-frame", "backward-again", "already-in-the-laboratory-frame")] + \
+                  ["quantarhei/qm/propagators/statevectorevolution.py::StateVectorEvolution.convert_from_RWA#" + t
+                   for t in ("from-the-rotating-frame", "into-the-rotating-frame")]
     p.extra_axioms = [V.ufun("exp", 0) == 1]
     p.oracles = ["native/oracle_C02.py"]
     p.not_decided = ["positive semidefiniteness; agreement with exp(Lt) within the truncation bound; conservation of norm, "
